@@ -178,4 +178,16 @@ CHECKS["C17"] = {
     "assumptions": COMMON_ASSUMPTIONS + ["YAML documents are hand-written by the monitor (all keys present)"],
 }
 
+CHECKS["C18"] = {
+    "package": "dsj", "bin": "c18", "flavor": "seq", "replay": "rerun",
+    "shards": {"quick": 4, "thorough": 16},
+    "level": "exploration",
+    "technique": "runtime monitoring: round-trip oracle (equality + id + re-serialised document + identical enforcement of a short history) over generated rules through the real datasource parser; mutated documents (every key dropped / reordered / wrongly typed, truncation at every byte) under catch_unwind; metric items through Display / from_string",
+    "rule": "cases = 1-3 generated rules of one family (all enum variants incl. #[serde(skip)] custom ones, u32/u64 boundary values incl. 2^53+-1 and MAX, finite f64 incl. denormals / 17-digit values / -0.0, names with spaces, tabs, quotes, backslashes, '|', unicode, empty; override maps) serialised with serde_json and parsed by datasource::rule_json_array_parser (sentinel-core built with feature ds_consul); for the first rule every key is dropped, all keys are shuffled, every key gets a wrongly typed value, and the document is cut at every character boundary; 1 case in 6 = 20 metric items with boundary counters, 7 resource types, timestamps 0..year 9999, same name pool. Distinct = distinct (family, #rules, enforced?, hard name?) resp. (separator in name?, outer whitespace?, ascii?, resource type)",
+    "level_text": "parsed == original (PartialEq and id), re-serialised document equal as JSON, the parsed rule decides a 24-operation history exactly like the original (for valid, sanely sized rules); a dropped key yields the field's default and changes nothing else; reordering changes nothing; wrong types and every proper prefix of the document are errors; nothing panics; a metric line parses back to the item with '|' replaced by '_' in the name; exploration.",
+    "level_note": "Rules holding a #[serde(skip)] variant must fail to serialise cleanly (no panic). Resource names with line breaks are outside the quantifier. Byte-for-byte equality of the re-serialised text is not required (override maps are hash maps).",
+    "design_ref": "DESIGN.md §5 C18",
+    "assumptions": COMMON_ASSUMPTIONS + ["sentinel-core is built with feature ds_consul for this monitor only (the parser is compiled only with a ds_* feature)"],
+}
+
 NOT_APPLICABLE = {}
